@@ -38,9 +38,9 @@ theorem visitE_quiet (cfg : Config) : ∀ (e : Expr) (n : Nat), quiet cfg e = tr
       simp only [quiet, Bool.and_eq_true] at hq
       simp [visitE, visitE_quiet cfg v n hq.1, ensure_ok cfg _ _ v n hq.2, bind, Except.bind, pure, Except.pure]
   | .binop i op l r, n, hq => by
-      simp only [quiet, Bool.and_eq_true] at hq
-      obtain ⟨⟨⟨h1, h2⟩, h3⟩, h4⟩ := hq
-      simp [visitE, visitE_quiet cfg l n h1, visitE_quiet cfg r n h2, ensure_ok cfg _ _ l n h3, ensure_ok cfg _ _ r n h4,
+      simp only [quiet, Bool.and_eq_true, Bool.not_eq_true'] at hq
+      obtain ⟨⟨⟨⟨h0, h1⟩, h2⟩, h3⟩, h4⟩ := hq
+      simp [visitE, h0, visitE_quiet cfg l n h1, visitE_quiet cfg r n h2, ensure_ok cfg _ _ l n h3, ensure_ok cfg _ _ r n h4,
         bind, Except.bind, pure, Except.pure]
   | .compare i l ops rs, n, hq => by
       simp only [quiet, Bool.and_eq_true, Bool.not_eq_true', decide_eq_false_iff_not] at hq
